@@ -5,7 +5,7 @@
    ([c_off] = buf->offset).  [c_len] is kept separately from [length c_data] because the
    legacy int-length entry points take the length from the caller.
 
-   Raw memory access is [byte_at]/[read_bytes]: an index outside [c_data] is
+   Raw memory access is [byte_rel]/[read_bytes]: an index outside [c_data] is
    [UB OutOfBounds].  The position arithmetic is the GENERATED text of ares_buf_len,
    ares_buf_consume, ares_buf_set_position, ares_buf_get_position (CAres.Gen.LeafFns);
    the explicit `remaining_len < n` checks of the C fetch functions, modelled here one by
@@ -17,19 +17,25 @@ Local Open Scope Z_scope.
 Record cursor := mkCur {
   c_data : list N;     (* the bytes of the block, each < 256 *)
   c_len  : Z;          (* buf->data_len *)
-  c_off  : Z }.        (* buf->offset *)
+  c_off  : Z;          (* buf->offset *)
+  c_rest : list N }.   (* the block from data + offset on: always skipn offset data (cur_ok); kept
+                          so that the extracted model reads sequentially in constant time *)
 
 (* ares_buf_create_const(data, len) for a block holding exactly [bs] *)
-Definition cur_of_bytes (bs : list N) : cursor := mkCur bs (Z.of_nat (length bs)) 0.
+Definition cur_of_bytes (bs : list N) : cursor := mkCur bs (Z.of_nat (length bs)) 0 bs.
 
-Definition set_off (c : cursor) (o : Z) : cursor := mkCur (c_data c) (c_len c) o.
+(* the buffer with buf->offset = o *)
+Definition set_off (c : cursor) (o : Z) : cursor := mkCur (c_data c) (c_len c) o (skipn (Z.to_nat o) (c_data c)).
+
+(* the buffer after buf->offset += n (o' is the new offset) *)
+Definition move_off (c : cursor) (n o' : Z) : cursor :=
+  if o' =? c_off c then c else mkCur (c_data c) (c_len c) o' (skipn (Z.to_nat n) (c_rest c)).
 
 (* ---- raw memory ---- *)
 
-(* data[i] *)
-Definition byte_at (c : cursor) (i : Z) : outcome Z :=
-  if i <? 0 then UB OutOfBounds else
-  match nth_error (c_data c) (Z.to_nat i) with
+(* data[offset + k] *)
+Definition byte_rel (c : cursor) (k : nat) : outcome Z :=
+  match nth_error (c_rest c) k with
   | Some b => Ok (Z.of_N b)
   | None => UB OutOfBounds
   end.
@@ -43,10 +49,9 @@ Fixpoint take_exact (n : nat) (l : list N) : option (list N) :=
             end
   end.
 
-(* memcpy(dst, data + start, n): all of [start, start+n) must be inside the block *)
-Definition read_bytes (c : cursor) (start : Z) (n : nat) : outcome (list N) :=
-  if start <? 0 then UB OutOfBounds else
-  match take_exact n (skipn (Z.to_nat start) (c_data c)) with
+(* memcpy(dst, data + offset, n): all of [offset, offset+n) must be inside the block *)
+Definition read_bytes (c : cursor) (n : nat) : outcome (list N) :=
+  match take_exact n (c_rest c) with
   | Some l => Ok l
   | None => UB OutOfBounds
   end.
@@ -63,12 +68,12 @@ Definition get_position (c : cursor) : outcome Z := c_ares_buf_get_position (c_o
 Definition consume (c : cursor) (n : Z) : outcome (Z * cursor) :=
   do l <- buf_len c;
   do r <- c_ares_buf_consume n l (c_off c);
-  Ok (fst r, set_off c (snd r)).
+  Ok (fst r, move_off c n (snd r)).
 
 (* ares_buf_set_position: (status, buffer after the call) *)
 Definition set_position (c : cursor) (idx : Z) : outcome (Z * cursor) :=
   do r <- c_ares_buf_set_position idx (c_len c) (c_off c);
-  Ok (fst r, set_off c (snd r)).
+  Ok (fst r, if snd r =? c_off c then c else set_off c (snd r)).
 
 (* a call whose status is checked with `if (status != ARES_SUCCESS) return status;` *)
 Definition checked {A} (r : outcome (Z * A)) : outcome A :=
@@ -84,7 +89,7 @@ Definition fetch_remaining (c : cursor) : outcome Z := buf_len c.
 Definition fetch_u8 (c : cursor) : outcome (Z * cursor) :=
   do rem <- fetch_remaining c;
   if rem <? 1 then Err ARES_EBADRESP else
-  do b <- byte_at c (c_off c);
+  do b <- byte_rel c 0;
   do c' <- checked (consume c 1);
   Ok (b, c').
 
@@ -92,8 +97,8 @@ Definition fetch_u8 (c : cursor) : outcome (Z * cursor) :=
 Definition fetch_be16 (c : cursor) : outcome (Z * cursor) :=
   do rem <- fetch_remaining c;
   if rem <? 2 then Err ARES_EBADRESP else
-  do b0 <- byte_at c (c_off c);
-  do b1 <- byte_at c (c_off c + 1);
+  do b0 <- byte_rel c 0;
+  do b1 <- byte_rel c 1;
   let u32 := Z.lor (Z.shiftl b0 8) b1 in
   do c' <- checked (consume c 2);
   Ok (Z.land u32 65535, c').
@@ -102,10 +107,10 @@ Definition fetch_be16 (c : cursor) : outcome (Z * cursor) :=
 Definition fetch_be32 (c : cursor) : outcome (Z * cursor) :=
   do rem <- fetch_remaining c;
   if rem <? 4 then Err ARES_EBADRESP else
-  do b0 <- byte_at c (c_off c);
-  do b1 <- byte_at c (c_off c + 1);
-  do b2 <- byte_at c (c_off c + 2);
-  do b3 <- byte_at c (c_off c + 3);
+  do b0 <- byte_rel c 0;
+  do b1 <- byte_rel c 1;
+  do b2 <- byte_rel c 2;
+  do b3 <- byte_rel c 3;
   let u32 := Z.lor (Z.lor (Z.lor (Z.shiftl b0 24) (Z.shiftl b1 16)) (Z.shiftl b2 8)) b3 in
   do c' <- checked (consume c 4);
   Ok (u32, c').
@@ -115,13 +120,13 @@ Definition fetch_be32 (c : cursor) : outcome (Z * cursor) :=
 Definition fetch_bytes (c : cursor) (len : Z) : outcome (list N * cursor) :=
   do rem <- fetch_remaining c;
   if (len =? 0) || (rem <? len) then Err ARES_EBADRESP else
-  do bs <- read_bytes c (c_off c) (Z.to_nat len);
+  do bs <- read_bytes c (Z.to_nat len);
   do c' <- checked (consume c len);
   Ok (bs, c').
 
 (* ares_buf_peek: the next [len] bytes without consuming (callers check len first) *)
 Definition peek_bytes (c : cursor) (len : Z) : outcome (list N) :=
-  read_bytes c (c_off c) (Z.to_nat len).
+  read_bytes c (Z.to_nat len).
 
 (* ares_str_isprint over a byte block *)
 Definition all_printable (l : list N) : bool := forallb (fun b => c_isprint (Z.of_N b)) l.
@@ -130,7 +135,7 @@ Definition all_printable (l : list N) : bool := forallb (fun b => c_isprint (Z.o
 Definition fetch_str (c : cursor) (len : Z) : outcome (list N * cursor) :=
   do rem <- fetch_remaining c;
   if (len =? 0) || (rem <? len) then Err ARES_EBADRESP else
-  do bs <- read_bytes c (c_off c) (Z.to_nat len);
+  do bs <- read_bytes c (Z.to_nat len);
   if negb (all_printable bs) then Err ARES_EBADSTR else
   do c' <- checked (consume c len);
   Ok (bs, c').
@@ -159,7 +164,8 @@ Definition parse_dns_binstr (c : cursor) (remaining_len : Z) (want validate_prin
 (* ---- invariant ---- *)
 
 Definition cur_ok (c : cursor) : Prop :=
-  0 <= c_off c <= c_len c /\ c_len c <= Z.of_nat (length (c_data c)) /\ c_len c < 2 ^ 64.
+  0 <= c_off c <= c_len c /\ c_len c <= Z.of_nat (length (c_data c)) /\ c_len c < 2 ^ 64
+  /\ c_rest c = skipn (Z.to_nat (c_off c)) (c_data c).
 
 (* same block, same declared length: what every read operation preserves *)
 Definition same_block (c c' : cursor) : Prop := c_data c' = c_data c /\ c_len c' = c_len c.
